@@ -9,7 +9,7 @@
    records every returned value.  `check` replays the same history on the
    model's state machine and compares every returned value.
 
-   CTab* cases carry the *runtime* content of the tables that
+   The CTables case carries the *runtime* content of the tables that
    Generated/PropTables.v holds as translated from the source text.
 
    codes: 0 agree
@@ -22,7 +22,7 @@
           8 the document could not be built (construction panicked)
           9 the implementation panicked and so does the model (C04_get_total says the
             model does not: the case is outside its hypotheses, e.g. ill-typed) *)
-From Verif Require Export Css.Defaulting.
+From Verif Require Export Css.Defaulting Css.DefaultingSpec.
 From Coq Require Import QArith ZArith NArith List String Bool.
 Import ListNotations.
 Open Scope N_scope.
@@ -32,15 +32,19 @@ Inductive hop :=
 | G (n p : N) (r : gres)        (* style(n).Get(p) returned r *)
 | K (n : N) (ok : bool).        (* the style object of node n was constructed *)
 
+(* one entry of the runtime tables *)
+Inductive tab :=
+| TProp (p : N) (name : string) (inh inc : bool) (computer : string) (init : value)
+| TUnit (u : N) (px : Q)
+| TFsk (i : N) (s : string) (v : Q)
+| TBw (s : string) (v : Q)
+| TFw (bolder : bool) (k v : Z)
+| TSizes (nb n_inh n_inc n_comp n_init n_units n_fsk n_bw n_bolder n_lighter : N).
+
 Inductive case :=
 | CDoc (t : tree) (ops : list hop)
 | CBuildPanic
-| CTabProp (p : N) (name : string) (inh inc : bool) (computer : string) (init : value)
-| CTabUnit (u : N) (px : Q)
-| CTabFsk (i : N) (s : string) (v : Q)
-| CTabBw (s : string) (v : Q)
-| CTabFw (bolder : bool) (k v : Z)
-| CTabSizes (nb n_inh n_inc n_comp n_init n_units n_fsk n_bw n_bolder n_lighter : N).
+| CTables (l : list tab).
 
 Fixpoint run_hist (t : tree) (st : styles) (ops : list hop) : N :=
   match ops with
@@ -68,31 +72,34 @@ Fixpoint run_hist (t : tree) (st : styles) (ops : list hop) : N :=
 Definition len {A} (l : list A) : N := N.of_nat (List.length l).
 Definition nth_fsk (i : N) : option (string * (Q * Q)) := nth_error font_size_keywords (N.to_nat i).
 
+Definition check_tab (c : tab) : bool :=
+  match c with
+  | TProp p name inh inc comp init =>
+      String.eqb (prop_name p) name && Bool.eqb (inherited p) inh
+      && Bool.eqb (initial_not_computed p) inc
+      && String.eqb (match assoc_N computer_list p with Some s => s | None => ""%string end) comp
+      && match initial p with Some v => value_eqb v init | None => false end
+  | TUnit u px => Qeq_bool (px_per f32 u) px
+  | TFsk i s v =>
+      match nth_fsk i with
+      | Some (s', ab) => String.eqb s s' && Qeq_bool (fs_keyword_value f32 ab) v
+      | None => false
+      end
+  | TBw s v => match assoc_S border_width_keywords s with
+               | Some q => Qeq_bool (cst f32 q) v | None => false end
+  | TFw b k v => Z.eqb (fw_table (if b then font_weight_bolder else font_weight_lighter) k) v
+  | TSizes nb ni nc ncomp ninit nu nf nbw nbo nli =>
+      (nb =? nb_properties) && (ni =? len inherited_list) && (nc =? len initial_not_computed_list)
+      && (ncomp =? len computer_list) && (ninit =? len initial_list) && (nu =? len lengths_to_pixels)
+      && (nf =? len font_size_keywords) && (nbw =? len border_width_keywords)
+      && (nbo =? len font_weight_bolder) && (nli =? len font_weight_lighter)
+  end.
+
 Definition check (c : case) : N :=
   match c with
   | CDoc t ops => if wf_tree t then run_hist t empty_styles ops else 7
   | CBuildPanic => 8
-  | CTabProp p name inh inc comp init =>
-      if String.eqb (prop_name p) name && Bool.eqb (inherited p) inh
-         && Bool.eqb (initial_not_computed p) inc
-         && String.eqb (match assoc_N computer_list p with Some s => s | None => ""%string end) comp
-         && match initial p with Some v => value_eqb v init | None => false end
-      then 0 else 5
-  | CTabUnit u px => if Qeq_bool (px_per f32 u) px then 0 else 5
-  | CTabFsk i s v =>
-      match nth_fsk i with
-      | Some (s', ab) => if String.eqb s s' && Qeq_bool (fs_keyword_value f32 ab) v then 0 else 5
-      | None => 5
-      end
-  | CTabBw s v => match assoc_S border_width_keywords s with
-                  | Some q => if Qeq_bool (cst f32 q) v then 0 else 5 | None => 5 end
-  | CTabFw b k v => if Z.eqb (fw_table (if b then font_weight_bolder else font_weight_lighter) k) v then 0 else 5
-  | CTabSizes nb ni nc ncomp ninit nu nf nbw nbo nli =>
-      if (nb =? nb_properties) && (ni =? len inherited_list) && (nc =? len initial_not_computed_list)
-         && (ncomp =? len computer_list) && (ninit =? len initial_list) && (nu =? len lengths_to_pixels)
-         && (nf =? len font_size_keywords) && (nbw =? len border_width_keywords)
-         && (nbo =? len font_weight_bolder) && (nli =? len font_weight_lighter)
-      then 0 else 5
+  | CTables l => if forallb check_tab l then 0 else 5
   end.
 
 (* model observable, for replays: the first operation of the history on which the
@@ -101,6 +108,8 @@ Inductive mout :=
 | MAgree
 | MBad (i : N) (o : hop) (m : res (option value))
 | MTab (p : N) (name : string) (inh inc : bool) (computer : string) (init : option value)
+| MTabBad (runtime : tab) (generated : mout)
+| MSizes (l : list N)
 | MQ (q : Q) | MZ (z : Z) | MNone.
 
 Fixpoint first_bad (t : tree) (st : styles) (ops : list hop) (i : N) : mout :=
@@ -121,19 +130,81 @@ Fixpoint first_bad (t : tree) (st : styles) (ops : list hop) (i : N) : mout :=
       end
   end.
 
+Definition tab_out (c : tab) : mout :=
+  match c with
+  | TProp p _ _ _ _ _ =>
+      MTab p (prop_name p) (inherited p) (initial_not_computed p)
+           (match assoc_N computer_list p with Some s => s | None => ""%string end) (initial p)
+  | TUnit u _ => MQ (px_per f32 u)
+  | TFsk i _ _ => match nth_fsk i with Some (_, ab) => MQ (fs_keyword_value f32 ab) | None => MNone end
+  | TBw s _ => match assoc_S border_width_keywords s with Some q => MQ (cst f32 q) | None => MNone end
+  | TFw b k _ => MZ (fw_table (if b then font_weight_bolder else font_weight_lighter) k)
+  | TSizes _ _ _ _ _ _ _ _ _ _ =>
+      MSizes [nb_properties; len inherited_list; len initial_not_computed_list; len computer_list; len initial_list;
+              len lengths_to_pixels; len font_size_keywords; len border_width_keywords; len font_weight_bolder; len font_weight_lighter]
+  end.
+
+(* for a table case: the generated (source) view of the first entry that differs *)
 Definition model_out (c : case) : mout :=
   match c with
   | CDoc t ops => first_bad t empty_styles ops 0
   | CBuildPanic => MNone
-  | CTabProp p _ _ _ _ _ =>
-      MTab p (prop_name p) (inherited p) (initial_not_computed p)
-           (match assoc_N computer_list p with Some s => s | None => ""%string end) (initial p)
-  | CTabUnit u _ => MQ (px_per f32 u)
-  | CTabFsk i _ _ => match nth_fsk i with Some (_, ab) => MQ (fs_keyword_value f32 ab) | None => MNone end
-  | CTabBw s _ => match assoc_S border_width_keywords s with Some q => MQ (cst f32 q) | None => MNone end
-  | CTabFw b k _ => MZ (fw_table (if b then font_weight_bolder else font_weight_lighter) k)
-  | CTabSizes _ _ _ _ _ _ _ _ _ _ => MNone
+  | CTables l => match find (fun e => negb (check_tab e)) l with
+                 | Some e => MTabBad e (tab_out e)
+                 | None => MAgree
+                 end
   end.
+
+(* ------------------------------------------------------------------ table audit
+
+   The tables of Generated/PropTables.v (translated from the source on every run)
+   against the tables transcribed from the CSS specifications (Css/DefaultingSpec.v).
+   The theorems C04_property_tables_spec / C04_unit_table_correct / C04_font_tables_spec
+   state that there is no difference; when they no longer prove, this list names the
+   offending entries (evaluated by checks/C04.py). *)
+Inductive tdiff :=
+| DInherited (name : string) (source css : bool)
+| DContextInitial (name : string) (source css : bool)
+| DNoInitialValue (name : string)
+| DUnit (u : N) (source css : option Q)
+| DBolder (w source css : Z)
+| DLighter (w source css : Z)
+| DFontSizeNames (source css : list string)
+| DFontSizeRatio (name : string) (a b : Q)
+| DBorderKeyword (name : string) (source : Q)
+| DBorderStyleNotBeforeWidth (width_prop at_pred : string).
+
+Definition all_props : list N := map N.of_nat (seq 1 (N.to_nat nb_properties - 1)).
+Definition units_u8 : list N := map N.of_nat (seq 0 256).
+Definition Qeq_opt' (a b : option Q) : bool :=
+  match a, b with Some x, Some y => Qeq_bool x y | None, None => true | _, _ => false end.
+Definition style_name' (w : string) : string :=
+  (String.substring 0 (String.length w - 5) w ++ "style")%string.
+
+Definition table_diffs : list tdiff :=
+  flat_map (fun p =>
+    (if Bool.eqb (inherited p) (mem_S (prop_name p) css_inherited_names) then []
+     else [DInherited (prop_name p) (inherited p) (mem_S (prop_name p) css_inherited_names)]) ++
+    (if Bool.eqb (initial_not_computed p) (mem_S (prop_name p) css_context_dependent_initial) then []
+     else [DContextInitial (prop_name p) (initial_not_computed p) (mem_S (prop_name p) css_context_dependent_initial)]) ++
+    (match initial p with Some _ => [] | None => [DNoInitialValue (prop_name p)] end) ++
+    (match computer_of p with
+     | KBorderWidth => if String.eqb (prop_name (N.pred p)) (style_name' (prop_name p)) then []
+                       else [DBorderStyleNotBeforeWidth (prop_name p) (prop_name (N.pred p))]
+     | _ => [] end)) all_props ++
+  flat_map (fun u => if Qeq_opt' (assoc_N lengths_to_pixels u) (css_px_per u) then []
+                     else [DUnit u (assoc_N lengths_to_pixels u) (css_px_per u)]) units_u8 ++
+  flat_map (fun w =>
+    (if Z.eqb (fw_table font_weight_bolder w) (css_bolder w) then [] else [DBolder w (fw_table font_weight_bolder w) (css_bolder w)]) ++
+    (if Z.eqb (fw_table font_weight_lighter w) (css_lighter w) then [] else [DLighter w (fw_table font_weight_lighter w) (css_lighter w)]))
+    css_weights ++
+  (if list_eq_dec string_dec (map fst font_size_keywords) css_size_names then []
+   else [DFontSizeNames (map fst font_size_keywords) css_size_names]) ++
+  flat_map (fun e => match css_font_size_ratio (fst e) with
+                     | Some r => if Qeq_bool r (fst (snd e) / snd (snd e)) then [] else [DFontSizeRatio (fst e) (fst (snd e)) (snd (snd e))]
+                     | None => [DFontSizeRatio (fst e) (fst (snd e)) (snd (snd e))] end) font_size_keywords ++
+  flat_map (fun e => if Qeq_opt' (css_border_keyword (fst e)) (Some (snd e)) then [] else [DBorderKeyword (fst e) (snd e)])
+    border_width_keywords.
 
 Fixpoint mismatches (i : N) (cs : list case) : list (N * N) :=
   match cs with
